@@ -19,6 +19,7 @@ Record c03case : Type := mkcase {
   c_kind : ekind; c_init : option ccirc; c_circuits : list ccirc; c_pvals : list cparams;
   c_layers : list layer;        (* outermost first *)
   c_legacy : bool;              (* which transpiling-estimator variant to run *)
+  c_tol : Q;                    (* comparison tolerance: relative resolution x sum of |coefficients| (or max |table entry|) *)
   c_expected : result (list Q)  (* what the implementation returned *)
 }.
 
@@ -75,7 +76,8 @@ Definition wf_case (c : c03case) : bool :=
      | KEst _ => true
      end.
 
-Definition close (x y : Q) : bool := Qle_bool (Qabs (x - y)) (1 # 1000000000).
-Definition check_case (c : c03case) : bool := wf_case c && result_eqb (list_eqb close) (model_run c) (c_expected c).
-Definition check_objective (c : c03case) : bool := result_eqb (list_eqb close) (Ok (model_objective c)) (c_expected c).
+(* values are compared relative to the scale of the objective (the tolerance is part of the case), never to an absolute constant *)
+Definition close (tol x y : Q) : bool := Qle_bool (Qabs (x - y)) tol.
+Definition check_case (c : c03case) : bool := wf_case c && result_eqb (list_eqb (close (c_tol c))) (model_run c) (c_expected c).
+Definition check_objective (c : c03case) : bool := result_eqb (list_eqb (close (c_tol c))) (Ok (model_objective c)) (c_expected c).
 Definition show_case (c : c03case) : bool * result (list Q) * list Q := (wf_case c, model_run c, model_objective c).
